@@ -277,8 +277,7 @@ User callbacks are *scripts* (`Prog`): completion callbacks (also run by the tim
 handlers, that call back into the same object — `request`, `notify`, `respond`, a response frame fed
 to the proto from inside the callback, `addService`, `cleanup()` — nested to any depth. -/
 
-/-- no callback tag is pending twice and every pending tag has been handed out -/
-def RInv (s : Rpc) : Prop := ∀ t, pendCount t s.pending ≤ (if t < s.nTag then 1 else 0)
+-- `RInv s` (ProofsRpc): no callback tag is pending twice and every pending tag has been handed out
 
 theorem RInv_init (n : Nat) (p : Prog) : RInv { Rpc.init n with prog := p } := by
   intro t; simp [Rpc.init, pendCount]
@@ -346,18 +345,19 @@ theorem C14_callback_code (s : Rpc) (id code : Int) (k : Nat) (cb : Cb)
 (already completed by a response or by the timeout) — causes no callback and changes nothing.
 (b) While the completion of `id` is in progress the entry is already gone: whatever the callback
 script does — feed the same response again (at any nesting depth), issue new requests, clean up —
-the callback runs exactly once during the completion and `id` is not pending afterwards, so every
-later duplicate is a response of kind (a). -/
+the callback runs exactly once during the completion and is not pending afterwards (so nothing can run
+it again: `C14_callback_once`).  (With the cyclic allocation the *id* may be handed to a new request by
+the script — then a later response with that id is that request's, not a duplicate.) -/
 theorem C14_callback_ignored (s : Rpc) (id code : Int) :
     (pendingFind s.pending id = none → s.complete id code = (s, [])) ∧
-    (∀ k cb, pendingFind s.pending id = some (k, cb) → RInv s → k ≤ s.idAlloc →
+    (∀ k cb, pendingFind s.pending id = some (k, cb) → RInv s →
       firedCount cb.tag (s.complete id code).2 = 1 ∧
-      pendingFind (s.complete id code).1.pending id = none) := by
+      pendCount cb.tag (s.complete id code).1.pending = 0) := by
   constructor
   · intro h
     show Rpc.completeF (31 + 1) s id code = (s, [])
     rw [Rpc.completeF, h]
-  · intro k cb h hinv hle
+  · intro k cb h hinv
     obtain ⟨hmem, hk⟩ := pendingFind_mem _ _ _ _ h
     obtain ⟨rest, hr⟩ := complete_head s id code k cb h
     have hge : 1 ≤ firedCount cb.tag (s.complete id code).2 :=
@@ -367,13 +367,11 @@ theorem C14_callback_ignored (s : Rpc) (id code : Int) :
       simp at this; omega
     have hd := (Delta_complete s id code).2 cb.tag
     have hi := hinv cb.tag
-    refine ⟨by split at hd <;> split at hi <;> omega, ?_⟩
-    rw [← hk]
-    exact (NotPend_complete s k code hle).2
+    constructor <;> (split at hd <;> split at hi <;> omega)
 
-/-- **C14_tick_slot.** A tick hands exactly the ids of the slot that follows the current one to
-the timeout handler (each is completed with the timeout code if still pending, ignored otherwise)
-and leaves that slot empty as the new current slot. -/
+/-- **C14_tick_slot.** A tick hands exactly the tokens of the slot that follows the current one to
+the timeout handler (each completes the entry it was added with, with the timeout code, if that entry
+is still pending; a stale token is ignored) and leaves that slot empty as the new current slot. -/
 theorem C14_tick_slot (s : Rpc) (cur nxt : List Nat) (rest : List (List Nat)) (h : s.ring = cur :: nxt :: rest) :
     s.tick = Rpc.completeAll
       { s with ring := [] :: (rest ++ [cur]), vn := s.vn - nxt.length,
@@ -393,23 +391,23 @@ theorem C14_response_id_counterexample :
     (Rpc.respondG false ((Rpc.init 3).request 0).1 4294967297 0).2 = [.fired 0 0] ∧
     (((Rpc.init 3).request 0).1.respond 4294967297 0).2 = [] := by decide
 
-/-- **C14_ring_expiry.** From any state of the monitor (non-degenerate ring, ids in it not above
-the id counter), a request adds its id `x`; then for *every* continuation — requests, responses,
-notifications, inbound requests, ticks, and every callback script run on the way (requests issued
-from inside completion / timeout callbacks and service handlers, responses injected re-entrantly,
-slot swapped out first, then the callbacks) — as long as the object is not cleaned up, the list of ids
-handed to the timeout handler by the `j`-th following tick (counted from 0) contains `x` exactly once
-if `j + 1 = N` (the number of slots) and not at all otherwise: `x` expires at exactly the `N`-th
-following tick, once, never earlier, never again.  (`cleanup()` empties the ring by design:
-`C14_cleanup_final`.) -/
+/-- **C14_ring_expiry.** From any state of the monitor (non-degenerate ring, tokens in it not above
+the sequence counter — `seq = ++request_seq_`, the model's `nTag + 1`, is never reused, so no freshness
+assumption about *ids* is needed), a request adds its token `x`; then for *every* continuation —
+requests (also ones that re-use the same id after the counter has wrapped), responses, notifications,
+inbound requests, ticks, and every callback script run on the way — as long as the object is not cleaned
+up, the list of tokens handed to the timeout handler by the `j`-th following tick (counted from 0)
+contains `x` exactly once if `j + 1 = N` (the number of slots) and not at all otherwise: `x` expires at
+exactly the `N`-th following tick, once, never earlier, never again.  (`cleanup()` empties the ring by
+design: `C14_cleanup_final`.) -/
 theorem C14_ring_expiry (s : Rpc) (hs : Prog.safe s.prog) (hr : s.ring ≠ [])
-    (hf : ∀ y ∈ s.ring.flatten, y ≤ s.idAlloc)
+    (hf : ∀ y ∈ s.ring.flatten, y ≤ s.nTag)
     (c m : Nat) (ops : List Op) (hnc : NoCleanupOps ops) (j : Nat) (items : List Nat)
     (h : (runHanded (s.request c m).1 ops)[j]? = some items) :
-    items.count (s.idAlloc + 1) = if j + 1 = s.ring.length then 1 else 0 := by
+    items.count (s.nTag + 1) = if j + 1 = s.ring.length then 1 else 0 := by
   have hl := Live_request s c m hr hf
   have hs' : Safe (s.request c m).1 := Safe_of_prog _ _ (request_prog s c m) hs
-  rw [Live_run (s.idAlloc + 1) ops _ _ hs' hnc hl j items h]
+  rw [Live_run (s.nTag + 1) ops _ _ hs' hnc hl j items h]
   have : 0 < s.ring.length := List.length_pos_iff.mpr hr
   by_cases hj : j = s.ring.length - 1
   · have : j + 1 = s.ring.length := by omega
@@ -417,13 +415,16 @@ theorem C14_ring_expiry (s : Rpc) (hs : Prog.safe s.prog) (hr : s.ring ≠ [])
   · have : ¬ j + 1 = s.ring.length := by omega
     rw [if_neg hj, if_neg this]
 
-theorem RInv_request (s : Rpc) (hinv : RInv s) (c m : Nat) : RInv (s.request c m).1 := by
-  intro u
-  have h1 := (Delta_request s c m).2 u
-  have h2 := hinv u
-  have hn : (s.request c m).1.nTag = s.nTag + 1 := (request_fields s c m).2.2.2.1
-  rw [hn] at h1 ⊢
-  split at h1 <;> split at h2 <;> split <;> omega
+/-- **C14_stale_token_ignored.** A token whose entry is gone — the request was answered, and its id may
+meanwhile belong to a newer request, which carries a different `seq` — does nothing at all when its slot
+comes up: no callback, no state change (patches/C14-09; `C14_id_wrap_counterexample` (3) for the ring of
+bare ids). -/
+theorem C14_stale_token_ignored (s : Rpc) (seq : Nat) (code : Int)
+    (h : ∀ e ∈ s.pending, e.2.tag + 1 ≠ seq) : s.expireOne seq code = (s, []) := by
+  unfold Rpc.expireOne
+  have : s.pending.find? (fun e => e.2.tag + 1 = seq) = none := by
+    rw [List.find?_eq_none]; intro e he; simpa using h e he
+  rw [this]
 
 theorem Pend_not_fired (s : Rpc) (hinv : RInv s) (ops : List Op) (id : Nat) (cb : Cb)
     (hp : Pend (run s ops).1 id cb) : firedCount cb.tag (run s ops).2 = 0 := by
@@ -432,38 +433,42 @@ theorem Pend_not_fired (s : Rpc) (hinv : RInv s) (ops : List Op) (id : Nat) (cb 
   have := pendCount_erase_mem cb.tag id cb _ hmem
   simp at this; omega
 
-/-- **C14_callback_timeout.** A request (callback tag `s.nTag`) whose id gets no response — neither
-from the peer nor fed re-entrantly by a callback script (`QuietFor`: no script injects a response for
-this id or calls `cleanup()`) — whatever else happens: other requests, responses to other ids
-(duplicated, unknown, beyond `int`), notifications, inbound requests, scripts re-entering the object —
-is still pending after `N − 1` ticks, its callback has not run, and the `N`-th tick runs it with the
-timeout code. -/
-theorem C14_callback_timeout (s : Rpc) (hr : s.ring ≠ []) (hf : ∀ y ∈ s.ring.flatten, y ≤ s.idAlloc)
-    (hinv : RInv s) (hq : QuietFor s (s.idAlloc + 1)) (c m : Nat) (ops : List Op)
-    (hno : NoResponseFor (s.idAlloc + 1) ops) (hnc : NoCleanupOps ops)
+/-- **C14_callback_timeout.** A request (callback tag `s.nTag`, id `id` = what the allocation loop
+returns: any position of the counter, before or after a wrap) whose id gets no response — neither from
+the peer nor fed re-entrantly by a callback script (`QuietFor`: no script injects a response for this id
+or calls `cleanup()`) — whatever else happens: other requests, responses to other ids (duplicated,
+unknown, beyond `int`), notifications, inbound requests, scripts re-entering the object — is still
+pending after `N − 1` ticks, its callback has not run, and the `N`-th tick runs it with the timeout
+code.  (`hf`: the tokens in the ring are not above the sequence counter — an invariant of every
+reachable state; stale tokens of earlier uses of the same id are allowed.) -/
+theorem C14_callback_timeout (s : Rpc) (hr : s.ring ≠ []) (hf : ∀ y ∈ s.ring.flatten, y ≤ s.nTag)
+    (hinv : RInv s) (id : Nat) (hid : s.nextId = some id) (hq : QuietFor s id) (c m : Nat) (ops : List Op)
+    (hno : NoResponseFor id ops) (hnc : NoCleanupOps ops)
     (ht : ticks ops + 1 = s.ring.length) :
     firedCount s.nTag (run (s.request c m).1 ops).2 = 0 ∧
     REv.fired s.nTag kRequestTimeout ∈ (run (s.request c m).1 ops).1.tick.2 := by
   have hl := Live_request s c m hr hf
-  have hp := Pend_new s c m
-  have hq1 : QuietFor (s.request c m).1 (s.idAlloc + 1) := QuietFor_of_prog _ _ _ (request_prog s c m) hq
-  obtain ⟨hp', hi'⟩ := Track_run (s.idAlloc + 1) { tag := s.nTag, script := c } ops (s.request c m).1
+  have hp := Pend_new s hinv c m id hid
+  have hq1 : QuietFor (s.request c m).1 id := QuietFor_of_prog _ _ _ (request_prog s c m) hq
+  obtain ⟨hp', hi'⟩ := Track_run id { tag := s.nTag, script := c } ops (s.request c m).1
     (s.ring.length - 1) hq1 hp hl.2.1 hno hnc (by omega)
-  have hq2 : QuietFor (run (s.request c m).1 ops).1 (s.idAlloc + 1) :=
+  have hq2 : QuietFor (run (s.request c m).1 ops).1 id :=
     QuietFor_of_prog _ _ _ (run_prog ops _) hq1
   exact ⟨Pend_not_fired _ (RInv_request s hinv c m) ops _ _ hp', Track_fire _ _ _ hq2 hp' hi'⟩
 
 /-- **C14_callback_exactly_once.** … hence, in every history in which the request gets no
 response and at least `N` ticks happen, its callback runs exactly once (that run is the timeout of
-the `N`-th tick) — whatever follows (`more`: late responses, duplicates, `cleanup()`, anything). -/
-theorem C14_callback_exactly_once (s : Rpc) (hr : s.ring ≠ []) (hf : ∀ y ∈ s.ring.flatten, y ≤ s.idAlloc)
-    (hinv : RInv s) (hq : QuietFor s (s.idAlloc + 1)) (c m : Nat) (ops more : List Op)
-    (hno : NoResponseFor (s.idAlloc + 1) ops) (hnc : NoCleanupOps ops)
+the `N`-th tick) — whatever follows (`more`: late responses, duplicates, `cleanup()`, anything).
+This holds across the wrap of the id counter: the only thing asked of the allocation is that it
+returns (`hid`; `C14_alloc_total`: it does while fewer than `INT_MAX` requests are pending). -/
+theorem C14_callback_exactly_once (s : Rpc) (hr : s.ring ≠ []) (hf : ∀ y ∈ s.ring.flatten, y ≤ s.nTag)
+    (hinv : RInv s) (id : Nat) (hid : s.nextId = some id) (hq : QuietFor s id) (c m : Nat) (ops more : List Op)
+    (hno : NoResponseFor id ops) (hnc : NoCleanupOps ops)
     (ht : ticks ops + 1 = s.ring.length) :
     firedCount s.nTag (run (s.request c m).1 (ops ++ .tick :: more)).2 = 1 := by
   have hinv1 := RInv_request s hinv c m
   have hmost := (C14_callback_once (s.request c m).1 hinv1 (ops ++ .tick :: more) s.nTag).1
-  have hfire := (C14_callback_timeout s hr hf hinv hq c m ops hno hnc ht).2
+  have hfire := (C14_callback_timeout s hr hf hinv id hid hq c m ops hno hnc ht).2
   have : 1 ≤ firedCount s.nTag (run (s.request c m).1 (ops ++ .tick :: more)).2 := by
     rw [run_append]
     simp only [run, step, firedCount_append]
@@ -476,17 +481,18 @@ ticks happen (`pre`) and then the first response carrying its id (after the `int
 callback has not run before, runs at that response, first, with the response's code, and exactly once
 in the whole history, whatever follows (`more`: duplicates, ticks past the deadline, re-entrant
 duplicates fed by the callback itself, `cleanup()`). -/
-theorem C14_callback_response (s : Rpc) (hr : s.ring ≠ []) (hf : ∀ y ∈ s.ring.flatten, y ≤ s.idAlloc)
-    (hinv : RInv s) (hq : QuietFor s (s.idAlloc + 1)) (c m : Nat) (pre more : List Op) (rid code : Int)
-    (hno : NoResponseFor (s.idAlloc + 1) pre) (hnc : NoCleanupOps pre) (ht : ticks pre < s.ring.length)
-    (hrid : respIdG true rid = some ((s.idAlloc + 1 : Nat) : Int)) :
+theorem C14_callback_response (s : Rpc) (hr : s.ring ≠ []) (hf : ∀ y ∈ s.ring.flatten, y ≤ s.nTag)
+    (hinv : RInv s) (id : Nat) (hid : s.nextId = some id) (hq : QuietFor s id) (c m : Nat) (pre more : List Op)
+    (rid code : Int)
+    (hno : NoResponseFor id pre) (hnc : NoCleanupOps pre) (ht : ticks pre < s.ring.length)
+    (hrid : respIdG true rid = some (id : Int)) :
     firedCount s.nTag (run (s.request c m).1 pre).2 = 0 ∧
     (step (run (s.request c m).1 pre).1 (.response rid code)).2.head? = some (.fired s.nTag code) ∧
     firedCount s.nTag (run (s.request c m).1 (pre ++ .response rid code :: more)).2 = 1 := by
   have hl := Live_request s c m hr hf
-  have hp := Pend_new s c m
-  have hq1 : QuietFor (s.request c m).1 (s.idAlloc + 1) := QuietFor_of_prog _ _ _ (request_prog s c m) hq
-  have hp' := Track_run_le (s.idAlloc + 1) { tag := s.nTag, script := c } pre (s.request c m).1
+  have hp := Pend_new s hinv c m id hid
+  have hq1 : QuietFor (s.request c m).1 id := QuietFor_of_prog _ _ _ (request_prog s c m) hq
+  have hp' := Track_run_le id { tag := s.nTag, script := c } pre (s.request c m).1
     (s.ring.length - 1) hq1 hp hl.2.1 hno hnc (by omega)
   have hinv1 := RInv_request s hinv c m
   have h0 := Pend_not_fired _ hinv1 pre _ _ hp'
@@ -642,13 +648,13 @@ theorem C14_world_callback_once (w : World) (onB : Bool) (h : RInv (w.peer onB))
 /-- **C14_world_callback_exactly_once.** … and a request of peer a for which no response with its id is
 delivered while a sees `N − 1` of its ticks (the other peer answers never, or late, or its answers are
 lost) is completed exactly once, by the timeout of the `N`-th tick — later deliveries of late or
-duplicated answers included (`more`).  (`hd`, `hw`: the `request()` call itself is legal — the object is
-not cleaned up and `id_alloc_ < INT_MAX`.) -/
+duplicated answers included (`more`).  (`hd`, `hid`: the `request()` call itself is made — the object is
+not cleaned up and the allocation loop returns `id`.) -/
 theorem C14_world_callback_exactly_once (w : World) (hr : w.a.ring ≠ [])
-    (hf : ∀ y ∈ w.a.ring.flatten, y ≤ w.a.idAlloc) (hinv : RInv w.a) (hd : w.a.dead = false)
-    (hw : w.a.idAlloc < kIntMax)
-    (hq : QuietFor w.a (w.a.idAlloc + 1)) (c m : Nat) (ops more : List WOp)
-    (hno : NoResponseFor (w.a.idAlloc + 1) (peerOps (w.step (.api false (.request c m))).1 false ops))
+    (hf : ∀ y ∈ w.a.ring.flatten, y ≤ w.a.nTag) (hinv : RInv w.a) (hd : w.a.dead = false)
+    (id : Nat) (hid : w.a.nextId = some id)
+    (hq : QuietFor w.a id) (c m : Nat) (ops more : List WOp)
+    (hno : NoResponseFor id (peerOps (w.step (.api false (.request c m))).1 false ops))
     (hnc : NoCleanupOps (peerOps (w.step (.api false (.request c m))).1 false ops))
     (ht : ticks (peerOps (w.step (.api false (.request c m))).1 false ops) + 1 = w.a.ring.length) :
     firedCount w.a.nTag (w.run (.api false (.request c m) :: (ops ++ .api false .tick :: more))).2.1 = 1 := by
@@ -667,12 +673,11 @@ theorem C14_world_callback_exactly_once (w : World) (hr : w.a.ring ≠ [])
   rw [hsplit]
   simp only [run]
   have hg : step w.a (.request c m) = w.a.request c m := by
-    have : ¬ kIntMax ≤ w.a.idAlloc := by omega
-    simp [step, Rpc.guardReq, hd, this]
+    simp [step, Rpc.guardReq, hd, hid]
   have ha : (w.step (.api false (.request c m))).1.a = (w.a.request c m).1 := by
     simp [World.step, World.apply, hg]
   rw [hg]
-  have := C14_callback_exactly_once w.a hr hf hinv hq c m _
+  have := C14_callback_exactly_once w.a hr hf hinv id hid hq c m _
     (peerOps (((w.step (.api false (.request c m))).1.run ops).1.step (.api false .tick)).1 false more) hno hnc ht
   simp only [firedCount_append]
   have h0 : firedCount w.a.nTag (w.a.request c m).2 = 0 := by simp [Rpc.request, firedCount]
@@ -691,8 +696,8 @@ theorem C14_timer_phase (n : Nat) (hn : 1 ≤ n) (p : Prog) (ops : List TOp) :
   ⟨TimeInv_runT ops _ (by intro h; simp [Rpc.init] at h),
    MInv_monitored _ (MInv_runT ops _ (MInv_init n hn p))⟩
 
-theorem DL_request (s : Rpc) (ht : TInv s []) (hti : TimeInv s) (hf : ∀ y ∈ s.ring.flatten, y ≤ s.idAlloc)
-    (c m : Nat) : DL s.now s.ring.length (s.idAlloc + 1) (s.request c m).1 (s.ring.length - 1) := by
+theorem DL_request (s : Rpc) (ht : TInv s []) (hti : TimeInv s) (hf : ∀ y ∈ s.ring.flatten, y ≤ s.nTag)
+    (c m : Nat) : DL s.now s.ring.length (s.nTag + 1) (s.request c m).1 (s.ring.length - 1) := by
   have hl := Live_request s c m ht.1 hf
   have hpos : 0 < s.ring.length := List.length_pos_iff.mpr ht.1
   refine ⟨hl, TInv_request s c m [] ht, ?_⟩
@@ -705,29 +710,31 @@ theorem DL_request (s : Rpc) (ht : TInv s []) (hti : TimeInv s) (hf : ∀ y ∈ 
     omega
 
 /-- **C14_deadline_ms.** A request is issued at clock `t0` (any live state: ring non-degenerate,
-monitor and timer invariants of `C14_timer_phase`). For every timed continuation in which the object is
-not cleaned up (scripts re-entering it in every other way included), the tick that hands its id to the
+monitor and timer invariants of `C14_timer_phase`, `RInv`). For every timed continuation in which the object is
+not cleaned up (scripts re-entering it in every other way included), the tick that hands its token to the
 timeout handler was scheduled for an instant in `(t0 + (N−1)·1000, t0 + N·1000]` and is executed by the
 loop at or after that instant (never early). -/
 theorem C14_deadline_ms (s : Rpc) (hs : Prog.safe s.prog) (hr : s.ring ≠ []) (hm : Monitored s) (hti : TimeInv s)
-    (hf : ∀ y ∈ s.ring.flatten, y ≤ s.idAlloc) (c m : Nat) (ops : List TOp) (hnc : NoCleanupT ops) (e : TickRec)
-    (he : e ∈ logT (s.request c m).1 ops) (hx : s.idAlloc + 1 ∈ e.items) :
+    (hinv : RInv s)
+    (hf : ∀ y ∈ s.ring.flatten, y ≤ s.nTag) (c m : Nat) (ops : List TOp) (hnc : NoCleanupT ops) (e : TickRec)
+    (he : e ∈ logT (s.request c m).1 ops) (hx : s.nTag + 1 ∈ e.items) :
     s.now + (s.ring.length - 1) * 1000 < e.sched ∧ e.sched ≤ s.now + s.ring.length * 1000 ∧
     e.sched ≤ e.clock :=
-  have ht : TInv s [] := ⟨hr, hm.2.1, hm.2.2, fun e he => Or.inl (hm.1 e he)⟩
-  logT_bound s.now s.ring.length (s.idAlloc + 1) ops _ (Safe_of_prog _ _ (request_prog s c m) hs) hnc
+  have ht : TInv s [] := ⟨hr, hm.2.1, hm.2.2, fun e he => Or.inl (hm.1 e he), hinv⟩
+  logT_bound s.now s.ring.length (s.nTag + 1) ops _ (Safe_of_prog _ _ (request_prog s c m) hs) hnc
     (Or.inl ⟨_, DL_request s ht hti hf c m⟩) e he hx
 
 /-- **C14_deadline_reached.** … and it is not late either: once the clock has reached
 `t0 + N·1000` (and the loop has run, which every `adv` does), the id has been handed out — together
 with `C14_callback_timeout` the callback has run with the timeout code by then. -/
 theorem C14_deadline_reached (s : Rpc) (hs : Prog.safe s.prog) (hr : s.ring ≠ []) (hm : Monitored s) (hti : TimeInv s)
-    (hf : ∀ y ∈ s.ring.flatten, y ≤ s.idAlloc) (c m : Nat) (ops : List TOp) (hnc : NoCleanupT ops)
+    (hinv : RInv s)
+    (hf : ∀ y ∈ s.ring.flatten, y ≤ s.nTag) (c m : Nat) (ops : List TOp) (hnc : NoCleanupT ops)
     (hclock : s.now + s.ring.length * 1000 ≤ (runT (s.request c m).1 ops).1.now) :
-    cnt (s.idAlloc + 1) (runT (s.request c m).1 ops).1.ring = 0 := by
-  have ht : TInv s [] := ⟨hr, hm.2.1, hm.2.2, fun e he => Or.inl (hm.1 e he)⟩
+    cnt (s.nTag + 1) (runT (s.request c m).1 ops).1.ring = 0 := by
+  have ht : TInv s [] := ⟨hr, hm.2.1, hm.2.2, fun e he => Or.inl (hm.1 e he), hinv⟩
   have hd := DL_request s ht hti hf c m
-  rcases runT_DL s.now s.ring.length (s.idAlloc + 1) ops _ (Safe_of_prog _ _ (request_prog s c m) hs) hnc
+  rcases runT_DL s.now s.ring.length (s.nTag + 1) ops _ (Safe_of_prog _ _ (request_prog s c m) hs) hnc
     (Or.inl ⟨_, hd⟩) with ⟨m', hl, hti', hq⟩ | hg
   · exfalso
     have hv := Live_vn_pos _ _ m' [] hl hti'
@@ -740,37 +747,68 @@ theorem C14_deadline_reached (s : Rpc) (hs : Prog.safe s.prog) (hr : s.ring ≠ 
   · exact hg.2.2
 
 
-/-! ## (9) request ids at the C++ width (`int id_alloc_`, `id = ++id_alloc_`) -/
+/-! ## (9) request ids at the C++ width (`int id_alloc_`, `Rpc::allocRequestId`) -/
 
 /-- **C14_id_width.** In every state reachable from `initialize` by any program of scripts, any op
 sequence and any (test-only) setting of the counter within `int`: the counter is at most `INT_MAX`
 and every pending id lies in `[1, INT_MAX]` — the model's `Nat` ids *are* the C++ `int`s, nothing is
 narrowed — and id 0 (what an error response without an integer id is mapped to) is never pending.
-Below `INT_MAX` the C++ increment is exact and defined and the peer's `int` getter returns the id
-intact; at `INT_MAX` it is a signed overflow (`ub`), executed by g++ as the wrap to `INT_MIN`: that call
-is refused in the model (`Rpc.guardReq`) and never made by the harness. -/
+Whatever the allocation loop returns is in `[1, INT_MAX]`, not pending, and comes back intact through the
+peer's `int` getter.  (As found: below `INT_MAX` the C++ increment is exact; at `INT_MAX` it is a signed
+overflow (`ub`), executed by g++ as the wrap to `INT_MIN` — `C14_id_wrap_counterexample`.) -/
 theorem C14_id_width (n : Nat) (p : Prog) (ops : List JOp) :
     (let s := (runJ { Rpc.init n with prog := p } ops).1
      s.idAlloc ≤ 2147483647 ∧ (∀ e ∈ s.pending, 1 ≤ e.1 ∧ e.1 ≤ 2147483647) ∧ pendingFind s.pending 0 = none) ∧
-    (∀ k : Nat, k < 2147483647 →
-      cppIncr (k : Int) = (((k + 1 : Nat) : Int), false) ∧ respIdG true ((k + 1 : Nat) : Int) = some ((k + 1 : Nat) : Int)) ∧
+    (∀ (s : Rpc) (id : Nat), s.nextId = some id →
+      1 ≤ id ∧ id ≤ 2147483647 ∧ pendingFind s.pending (id : Int) = none ∧ respIdG true (id : Int) = some (id : Int)) ∧
+    (∀ k : Nat, k < 2147483647 → cppIncr (k : Int) = (((k + 1 : Nat) : Int), false)) ∧
     cppIncr 2147483647 = (-2147483648, true) := by
-  refine ⟨?_, ?_, by decide⟩
+  refine ⟨?_, ?_, ?_, by decide⟩
   · have h := IdInv_runJ ops { Rpc.init n with prog := p } ⟨by simp [Rpc.init, kIntMax], by simp [Rpc.init]⟩
     exact ⟨h.1, h.2, pendingFind_zero _ (fun e he => (h.2 e he).1)⟩
+  · intro s id h
+    obtain ⟨h1, h2, h3⟩ := nextId_spec s id h
+    have : kIntMax = 2147483647 := rfl
+    refine ⟨h2, by omega, h1, ?_⟩
+    unfold respIdG; simp; omega
   · intro k hk
-    constructor
-    · unfold cppIncr wrap32
-      refine Prod.ext ?_ (by simp; omega)
-      show ((k : Int) + 1 + 2147483648) % 4294967296 - 2147483648 = ((k + 1 : Nat) : Int)
-      omega
-    · unfold respIdG; simp; omega
+    unfold cppIncr wrap32
+    refine Prod.ext ?_ (by simp; omega)
+    show ((k : Int) + 1 + 2147483648) % 4294967296 - 2147483648 = ((k + 1 : Nat) : Int)
+    omega
 
-/-- **C14_callback_once_any_ids.** `C14_callback_once` for every allocation of ids: with the counter
-set arbitrarily between the ops (`jump`: forwards = requests completed in between, backwards = the
-counter has wrapped, ids are reused while still pending or still in the timeout ring) every
-completion callback still runs at most once, a callback that has run is not pending, and none runs
-that was never handed to `request`. -/
+/-- **C14_alloc_total.** The allocation loop of the repaired `request()` returns — in every reachable
+state (`C14_id_width`: counter within `int`) with fewer than `INT_MAX` pending requests; a cyclic scan of
+`pending + 1` candidates suffices (pigeonhole).  (With all 2³¹−1 ids pending the C++ loop would spin for
+ever: the model refuses that call, `guardReq`.) -/
+theorem C14_alloc_total (s : Rpc) (hi : s.idAlloc ≤ kIntMax) (hl : s.pending.length < kIntMax) :
+    ∃ id, s.nextId = some id ∧ step s (.request 0 0) = (if s.dead then (s, [.misuse]) else s.request 0 0) := by
+  obtain ⟨id, h⟩ := nextId_total s hi hl
+  refine ⟨id, h, ?_⟩
+  cases hd : s.dead <;> simp [step, Rpc.guardReq, hd, h]
+
+/-- **C14_alloc_next.** What the loop returns: the successor of the counter when that is free — below
+`INT_MAX` the next integer, at `INT_MAX` (or beyond: never reached) 1: the wrap is the defined assignment
+`id_alloc_ = 1`, no overflow, never 0 and never a pending id (`C14_id_width`). -/
+theorem C14_alloc_next (s : Rpc) :
+    (s.idAlloc < kIntMax → pendingFind s.pending ((s.idAlloc + 1 : Nat) : Int) = none → s.nextId = some (s.idAlloc + 1)) ∧
+    (kIntMax ≤ s.idAlloc → pendingFind s.pending 1 = none → s.nextId = some 1) ∧
+    (s.idAlloc < kIntMax → (pendingFind s.pending ((s.idAlloc + 1 : Nat) : Int)).isSome →
+      s.nextId = nextIdF s.pending.length (s.idAlloc + 1) s.pending) := by
+  refine ⟨?_, ?_, ?_⟩
+  · intro h hf; unfold Rpc.nextId; rw [nextIdF]; simp only [h, if_true, hf]; rfl
+  · intro h hf
+    have : ¬ s.idAlloc < kIntMax := by omega
+    unfold Rpc.nextId; rw [nextIdF]; simp only [this, if_false]
+    have hf' : pendingFind s.pending ((1 : Nat) : Int) = none := hf
+    rw [hf']; rfl
+  · intro h hf; unfold Rpc.nextId; rw [nextIdF]; simp only [h, if_true, hf]
+
+/-- **C14_callback_once_any_ids.** `C14_callback_once` for every position of the id counter: with the
+counter set arbitrarily between the ops (`jump`: forwards = requests completed in between, backwards = the
+counter has wrapped: ids are handed out again while the token of their earlier use still sits in the
+timeout ring, pending ones are skipped) every completion callback still runs at most once, a callback
+that has run is not pending, and none runs that was never handed to `request`. -/
 theorem C14_callback_once_any_ids (s : Rpc) (h : RInv s) (ops : List JOp) (t : Nat) :
     firedCount t (runJ s ops).2 ≤ 1 ∧
     firedCount t (runJ s ops).2 + pendCount t (runJ s ops).1.pending ≤ 1 ∧
@@ -789,22 +827,67 @@ theorem C14_callback_once_any_ids (s : Rpc) (h : RInv s) (ops : List JOp) (t : N
     have h2 := h u
     split at h1 <;> split at h2 <;> split <;> omega
 
-/-- **C14_id_wrap_counterexample** (rpc.cpp as it is: `id = ++id_alloc_`, no check).  *Exactly once*
-does not survive the wrap of the counter: (1) the 2³¹-th request executes a signed overflow; as g++
-compiles it the ids go on from `INT_MIN` and the 2³²-th request gets id 0, which `sendRequest` writes
-without an `id` member — a notification, never answered; (2) an id reused while its first request is
-still pending replaces the callback: tag 0 is neither run nor pending any more — lost; (3) an id
-reused while its first (answered) use still sits in the ring is timed out by that stale entry after
-one tick instead of three. -/
+/-- **C14_id_wrap_counterexample** (rpc.cpp before patches/C14-08, C14-09: `id = ++id_alloc_`, no check,
+bare ids in the timeout ring).  *Exactly once* did not survive the wrap of the counter: (1) the 2³¹-th
+request executed a signed overflow; as g++ compiles it the ids went on from `INT_MIN` and the 2³²-th
+request got id 0, which `sendRequest` writes without an `id` member — a notification, never answered;
+(2) an id reused while its first request was still pending replaced the callback: tag 0 neither run nor
+pending any more — lost; (3) an id reused while its first (answered) use still sat in the ring was timed
+out by that stale entry after one tick instead of three.  The repaired code on the same histories:
+(2') the pending id is skipped, both callbacks run; (3') the stale token is ignored, the second request
+times out at its own third tick. -/
 theorem C14_id_wrap_counterexample :
     (cppIncr 2147483647 = (-2147483648, true) ∧ cppIncr (-1) = (0, false) ∧
       ((mkRequest 0 "m" .null).lookup "id").isNone = true) ∧
-    (let r := runJ (Rpc.init 3) [.op (.request 0 0), .jump 0, .op (.request 0 0), .op (.response 1 0),
-                                 .op .tick, .op .tick, .op .tick, .op .tick]
+    (let r := runOrigJ (Rpc.init 3) [.op (.request 0 0), .jump 0, .op (.request 0 0), .op (.response 1 0),
+                                     .op .tick, .op .tick, .op .tick, .op .tick]
      r.2 = [.sent 1 0, .sent 1 0, .fired 1 0] ∧ r.1.pending = []) ∧
+    (runOrigJ (Rpc.init 3) [.op (.request 0 0), .op (.response 1 0), .op .tick, .op .tick, .jump 0,
+                            .op (.request 0 0), .op .tick]).2
+      = [.sent 1 0, .fired 0 0, .sent 1 0, .fired 1 kRequestTimeout] ∧
+    (runJ (Rpc.init 3) [.op (.request 0 0), .jump 0, .op (.request 0 0), .op (.response 1 0),
+                        .op .tick, .op .tick, .op .tick, .op .tick]).2
+      = [.sent 1 0, .sent 2 0, .fired 0 0, .fired 1 kRequestTimeout] ∧
     (runJ (Rpc.init 3) [.op (.request 0 0), .op (.response 1 0), .op .tick, .op .tick, .jump 0,
-                        .op (.request 0 0), .op .tick]).2
-      = [.sent 1 0, .fired 0 0, .sent 1 0, .fired 1 kRequestTimeout] := by decide
+                        .op (.request 0 0), .op .tick, .op .tick, .op .tick]).2
+      = [.sent 1 0, .fired 0 0, .sent 1 0, .fired 1 kRequestTimeout] ∧
+    (runJ (Rpc.init 3) [.op (.request 0 0), .op (.response 1 0), .op .tick, .op .tick, .jump 0,
+                        .op (.request 0 0), .op .tick, .op .tick]).2
+      = [.sent 1 0, .fired 0 0, .sent 1 0] := by decide
+
+/-- **C14_wrap_exactly_once.** The wrap itself, on the repaired code: the counter stands at `INT_MAX − 1`
+with id 1 still pending; the next three requests get `INT_MAX`, then 2 (1 is skipped: still pending), then
+3; every one of the four callbacks runs exactly once — by its response (ids `INT_MAX`, 1) or by its own
+timeout — and the response with id 2³¹ (what the overflowing counter would have produced) is ignored. -/
+theorem C14_wrap_exactly_once :
+    let r := runJ (Rpc.init 2) [.op (.request 0 0), .jump 2147483646, .op (.request 0 0), .op (.request 0 0),
+                               .op (.request 0 0), .op (.response 2147483648 0), .op (.response 2147483647 5),
+                               .op (.response 1 0), .op .tick, .op .tick, .op (.response 2 0)]
+    r.2 = [.sent 1 0, .sent 2147483647 0, .sent 2 0, .sent 3 0, .fired 1 5, .fired 0 0,
+           .fired 2 kRequestTimeout, .fired 3 kRequestTimeout] ∧
+    r.1.idAlloc = 3 ∧ r.1.pending = [] := by decide
+
+/-- **C14_initialize_checked.** `Rpc::initialize(proto, timeout_sec)` (patches/C14-10) succeeds exactly for
+`timeout_sec ≥ 1`, and then the monitor has `timeout_sec` slots (the hypothesis `1 ≤ n` of
+`C14_pending_timer_on`, `ring ≠ []` of the expiry theorems); for `timeout_sec < 1` it returns `false`.
+As found it returned `true` with no ring at all: a request is never completed (in C++: `add()` dereferences
+the null `curr_item_`). -/
+theorem C14_initialize_checked (t : Int) :
+    (Rpc.initialize t = none ↔ t < 1) ∧
+    (∀ s, Rpc.initialize t = some s → 1 ≤ t ∧ s = Rpc.init t.toNat ∧ s.ring.length = t.toNat ∧ s.ring ≠ []) ∧
+    (∃ s0, Rpc.initializeG false 0 = some s0 ∧ s0.ring = [] ∧
+      (run s0 [.request 0 0, .tick, .tick, .tick]).2 = [.sent 1 0]) := by
+  refine ⟨?_, ?_, ⟨Rpc.init 0, by decide, by decide, by decide⟩⟩
+  · unfold Rpc.initialize Rpc.initializeG; split <;> simp <;> omega
+  · intro s h
+    unfold Rpc.initialize Rpc.initializeG at h
+    split at h
+    · simp at h
+    · simp only [Option.some.injEq] at h
+      subst h
+      have : 0 < t.toNat := by omega
+      refine ⟨by omega, rfl, by simp [Rpc.init], ?_⟩
+      simp [Rpc.init]; omega
 
 /-! ## (10) `Proto::onRecvJson` on anything the peer may send; the `GetField` family -/
 
@@ -970,9 +1053,10 @@ example :
     let s := (run ({ Rpc.init 3 with prog := { exProg with cbs := exProg.cbs.take 2 } } : Rpc)
       [.setService 0 (some 0), .request 1 0, .tick]).1
     let ops : List Op := [.request 0 0, .tick, .response 1 0, .inRequest 5 0, .inRequest 6 0, .response 4294967298 0, .response 7 5, .tick]
-    s.ring ≠ [] ∧ (∀ y ∈ s.ring.flatten, y ≤ s.idAlloc) ∧ QuietFor s (s.idAlloc + 1) ∧
-    NoResponseFor (s.idAlloc + 1) ops ∧ NoCleanupOps ops ∧ ticks ops + 1 = s.ring.length := by
-  refine ⟨by decide, by decide, ?_, ?_, by decide, by decide⟩
+    s.ring ≠ [] ∧ (∀ y ∈ s.ring.flatten, y ≤ s.nTag) ∧ RInv s ∧ s.nextId = some 2 ∧ QuietFor s 2 ∧
+    NoResponseFor 2 ops ∧ NoCleanupOps ops ∧ ticks ops + 1 = s.ring.length := by
+  refine ⟨by decide, by decide, ?_, by decide, ?_, ?_, by decide, by decide⟩
+  · exact (C14_callback_once _ (RInv_init 3 _) _ 0).2.2.2
   · have hp : (run ({ Rpc.init 3 with prog := { exProg with cbs := exProg.cbs.take 2 } } : Rpc)
         [.setService 0 (some 0), .request 1 0, .tick]).1.prog = { exProg with cbs := exProg.cbs.take 2 } := run_prog _ _
     unfold QuietFor; rw [hp]
@@ -980,6 +1064,24 @@ example :
   intro rid code h
   simp at h
   rcases h with ⟨rfl, _⟩ | ⟨rfl, _⟩ | ⟨rfl, _⟩ <;> decide
+
+-- … and by a state across the wrap: the counter at INT_MAX, id 1 still pending (its token in the ring), the
+-- allocation returns 2; a stale token of an answered request is in the ring as well
+example :
+    let s := (runJ (Rpc.init 3) [.op (.request 0 0), .op (.request 0 0), .op (.response 2 0), .op .tick, .jump 2147483647]).1
+    let ops : List Op := [.tick, .response 1 0, .response 2147483648 0, .request 0 0, .tick]
+    s.ring ≠ [] ∧ (∀ y ∈ s.ring.flatten, y ≤ s.nTag) ∧ RInv s ∧ s.idAlloc = 2147483647 ∧ s.nextId = some 2 ∧
+    s.ring.flatten = [1, 2] ∧ s.pending.length = 1 ∧ QuietFor s 2 ∧
+    NoResponseFor 2 ops ∧ NoCleanupOps ops ∧ ticks ops + 1 = s.ring.length := by
+  refine ⟨by decide, by decide, ?_, by decide, by decide, by decide, by decide, ?_, ?_, by decide, by decide⟩
+  · exact (C14_callback_once_any_ids _ (RInv_init 3 {}) _ 0).2.2.2
+  · have hp : (runJ (Rpc.init 3) [.op (.request 0 0), .op (.request 0 0), .op (.response 2 0), .op .tick, .jump 2147483647]).1.prog
+        = {} := by decide
+    unfold QuietFor; rw [hp]
+    constructor <;> simp
+  intro rid code h
+  simp at h
+  rcases h with ⟨rfl, _⟩ | ⟨rfl, _⟩ <;> decide
 
 -- response before the deadline; duplicate ignored; second request times out at the 2nd tick, once
 example :
